@@ -476,6 +476,27 @@ fn run(cx: &mut Ctx, prop: Prop) {
                 cx.sample(json!({"family":"Secretbox","msglen":len,"faults":"every bit of tag/body/nonce/key, every truncation, 10 extensions","ct":hx(&w0.ct)}));
             }
             enumerate_ae(cx, &judge, fam, &w0, &msg, cheap_only);
+            // untampered messages chosen by a sender who knows key and nonce so that the Poly1305 accumulator over the
+            // ciphertext ends on an edge value: they are authentic and must be accepted like any other
+            if prop == Prop::C02 && len >= 16 && len % 16 == 0 && fam != Family::Seal {
+                let k_ = if fam == Family::Secretbox { key } else { na::box_beforenm(&rpk, &ssk).unwrap() };
+                let ks = na::stream_xsalsa20(32 + len, &nonce, &k_);
+                for sel in 0..cx.tier.pick(2usize, 13, 52) {
+                    let Some((ct, name)) = super::polyedge::craft_ciphertext(&ks[..16], len, sel + len / 16, &mut rng) else { continue };
+                    let m1: Vec<u8> = ct.iter().zip(ks[32..].iter()).map(|(a, b)| a ^ b).collect();
+                    let w1 = match fam {
+                        Family::Secretbox => Wire { nonce, key, pk: [0; 32], sk: [0; 32], ct: na::secretbox_easy(&m1, &nonce, &key) },
+                        Family::Afternm => Wire { nonce, key: na::box_beforenm(&spk, &rsk).unwrap(), pk: [0; 32], sk: [0; 32], ct: na::box_easy(&m1, &nonce, &rpk, &ssk).unwrap() },
+                        _ => Wire { nonce, key: [0; 32], pk: spk, sk: rsk, ct: na::box_easy(&m1, &nonce, &rpk, &ssk).unwrap() },
+                    };
+                    if w1.ct[16..] != ct[..] {
+                        cx.violation("HARNESS|C02|crafted_ciphertext_not_reproduced_by_libsodium", json!({"len":len}));
+                        continue;
+                    }
+                    judge.control(cx, fam, &w1, &m1);
+                    cx.cover("poly1305_edge_controls", &name);
+                }
+            }
             if prop == Prop::C17 {
                 // for one form and one wire length there are at most a length error and an authentication error;
                 // more distinct texts mean the text depends on the rejected bytes (or on the key)
@@ -514,9 +535,14 @@ fn run(cx: &mut Ctx, prop: Prop) {
                     // earlier messages carry any tag byte (REKEY bit set or not, FINAL, application bits)
                     let t1 = *rng.pick(&[0u8, 1, 0x80, 0x41, 0xfc]);
                     let t2 = *rng.pick(&[2u8, 3, 0x82, 0x83, 0xfe, 0xff, 0x02, 0x03]);
-                    prior.push(na::stream_push(&mut st, b"first", None, t1));
-                    prior.push(na::stream_push(&mut st, b"second, rekeys", None, t2));
+                    // ... and any length, the empty (tag-only) message included
+                    let shape = rng.below(4);
+                    let m1: &[u8] = if shape == 1 || shape == 3 { b"" } else { b"first" };
+                    let m2: &[u8] = if shape == 2 || shape == 3 { b"" } else { b"second, rekeys" };
+                    prior.push(na::stream_push(&mut st, m1, None, t1));
+                    prior.push(na::stream_push(&mut st, m2, None, t2));
                     cx.cover("stream_prior_tags", &format!("{:#04x},{:#04x}", t1, t2));
+                    cx.cover("stream_prior_lengths", &format!("{},{}", m1.len(), m2.len()));
                 }
                 let ct = na::stream_push(&mut st, &msg, ad.as_deref(), tag);
                 let w0 = SWire { key, header, ad: ad.clone(), prior, ct: ct.clone(), genuine: ct, genuine_ad: ad, genuine_key_header: true };
